@@ -27,6 +27,10 @@ Streams (all from run.seed):
                     the configured post-training scale, every instance attribute must be untouched, the object must
                     equal a fresh twin on the same tensor, and the object state / result / exported entries are tied
                     to the Lean event history (`qbRunEv`, QBEvent.save);
+  axis-from-end     scale_axis counted from the end (negative ints: int, list, mixed list, with elements_per_scale),
+                    every case paired with the same axes counted from the start; histories in which the rank changes
+                    under a negative axis or the axis is re-spelled on one object; the Lean model resolves the argument
+                    per call (`qbAxis` / `qlAxis`, Model/AutoFxArg.lean);
 Clause oracle on the REAL outputs (Python Fractions): y = rnd32(S * k * step) with integer |k| <= 2^(bits-1)-1,
 S constant on the SPEC groups and positive, 'auto' maps the group maximum to the top code and clips nothing,
 'auto_po2' scales are powers of two within the bounds, everything finite."""
@@ -316,7 +320,7 @@ def judge_qlinear(run, c, x, y, sc, qs, mirrored):
   if rank <= 1:
     groups = list(range(n))
     if c["sa"] is not None:
-      groups = A.spec_groups(c["shape"] + [1], c["sa"], None, c["ch_last"])
+      groups = A.spec_groups(c["shape"] + [1], from_start(c["sa"], max(rank, 1)), None, c["ch_last"])
   else:
     groups = A.spec_groups(c["shape"], c["sa"], None, c["ch_last"])
   by = {}
@@ -585,7 +589,7 @@ def spec_scale_shape(qk, cfg, shape, ch_last, pts):
     if qk == "qbits" and not cfg["po2"]:
       return [1]                 # 'auto' of a vector: one scale (axis = [0])
     return list(shape)           # per element (no reduction along the channel axis)
-  axes = A.spec_scale_axes(rank, cfg["sa"], ch_last)
+  axes = [a % rank for a in A.spec_scale_axes(rank, cfg["sa"], ch_last)]   # negative = counted from the end
   return [shape[a] if a in axes else 1 for a in range(rank)]
 
 
@@ -626,6 +630,15 @@ def run_history(run, Q, K, tf, h):
         rec["twin_snap"] = snapshot(tw)
       except Exception as e:  # pylint: disable=broad-except
         rec["twin_err"] = "%s: %s" % (type(e).__name__, str(e)[:200])
+      # a second fresh twin whose scale_axis is spelled FROM THE START (the harness's own reading of 'counted from the
+      # end' at the rank of this tensor): same value in another argument form => same output and scale
+      rec["start"] = rec["start_err"] = None
+      if has_negative(st["cfg"]["sa"]):
+        try:
+          tw2 = build_q(Q, qk, dict(st["cfg"], sa=from_start(st["cfg"]["sa"], len(st["shape"]))), h["pts"])
+          rec["start"] = call_q(qk, tw2, tf.constant(st["x"]), st["shape"])
+        except Exception as e:  # pylint: disable=broad-except
+          rec["start_err"] = "%s: %s" % (type(e).__name__, str(e)[:200])
       recs.append(rec)
   finally:
     K.set_image_data_format("channels_last")
@@ -730,6 +743,23 @@ def judge_history(run, h, recs, out):
                   mirrored=False)
     else:
       run.count("history:step-equals-fresh-twin")
+    if rec.get("start") is not None or rec.get("start_err") is not None:
+      run.compared += 1
+      run.count("history:axis-from-end-vs-from-start")
+      sp = rec["start"]
+      if sp is None or not (y.shape == sp[0].shape and np.array_equal(y, sp[0]) and sc_raw.shape == sp[1].shape
+                            and np.array_equal(sc_raw, sp[1])
+                            and (qs_raw is None or (qs_raw.shape == sp[2].shape and np.array_equal(qs_raw, sp[2])))):
+        run.violate("function_of_data", dict(key0, history=True, form="scale_axis counted from the end"),
+                    dict(lab, why="scale_axis=%r on a tensor of rank %d names the axes %r; a fresh quantizer configured "
+                                  "with those axes counted from the start gives another output / scale"
+                                  % (cfg["sa"], len(shape), from_start(cfg["sa"], len(shape))),
+                         from_start_error=rec.get("start_err"),
+                         scale_shape=list(sc_raw.shape), scale_shape_from_start=None if sp is None else list(sp[1].shape),
+                         scale=[float(v) for v in sc_raw.ravel()[:6]],
+                         scale_from_start=None if sp is None else [float(v) for v in sp[1].ravel()[:6]],
+                         y=[float(v) for v in y.ravel()[:6]],
+                         y_from_start=None if sp is None else [float(v) for v in sp[0].ravel()[:6]]), mirrored=False)
     ds = sorted(k for k in set(rec["snap"]) | set(rec["twin_snap"]) if rec["snap"].get(k, "<missing>") != rec["twin_snap"].get(k, "<missing>"))
     if same and ds:
       run.disagree("history-object-state:" + qk, lab, {k: rec["snap"].get(k, "<missing>") for k in ds},
@@ -761,6 +791,144 @@ def judge_history(run, h, recs, out):
                                              alpha="auto_po2" if cfg["po2"] else "auto", same_object=True),
                   dict(hlabel(h, i), k=kk, of_step=j, i=t, y=float(y0[t]), y_twin=float(y1[t]),
                        scale=float(s0[t]), scale_twin=float(s1[t])), mirrored=False)
+
+
+# ------------------------------------------------------------------ scale_axis counted from the end
+
+def from_start(sa, rank):
+  """the documented meaning of a negative axis ('counted from the end', numpy / TF convention), written by the
+  harness independently of the code: the same axes counted from the start"""
+  if sa is None:
+    return None
+  if isinstance(sa, list):
+    return [int(a) % rank for a in sa]
+  return int(sa) % rank
+
+
+def has_negative(sa):
+  return sa is not None and any(a < 0 for a in (sa if isinstance(sa, list) else [sa]))
+
+
+def spell(rng, axes, rank, how):
+  """axes (ascending, from the start) re-spelled: 'end' = every axis as axis - rank, 'mixed' = some of them"""
+  if how == "end":
+    return [a - rank for a in axes]
+  while True:
+    out = [a - rank if rng.random() < 0.5 else a for a in axes]
+    if len(axes) < 2 or (any(a < 0 for a in out) and any(a >= 0 for a in out)):
+      return out
+
+
+def gen_axis_cases(rng, tier):
+  """single calls of fresh objects whose scale_axis is spelled FROM THE END (negative ints; ints, lists, mixed lists;
+  with elements_per_scale), each paired with the same configuration spelled from the start: the clause oracle judges
+  both, the Lean model resolves the argument itself (`qbAxis` / `qlAxis`), and the pair must agree bit for bit"""
+  reps = 1 if tier == "quick" else 4
+  pairs = []
+
+  def add(qk, po2, sh, sa, eps=None, zero=None):
+    c = dict(stream="axis-from-end", q=qk, shape=list(sh), x=varied_tensor(rng, sh, zero=zero),
+             bits=int(rng.integers(2, 9)), integer=int(rng.integers(0, 3)), kn=bool(rng.random() < 0.85), po2=po2,
+             ch_last=bool(rng.random() < 0.6), sa=sa)
+    if qk == "qbits":
+      c.update(eps=eps, mn=None, mx=None, pts=None)
+    else:
+      c["sym"] = bool(rng.random() < 0.7)
+    d = dict(c, stream="axis-from-start", sa=from_start(sa, len(sh)))
+    pairs.append((c, d))
+
+  for _ in range(reps):
+    for qk in ("qbits", "qlinear"):
+      for po2 in (False, True):
+        for rank in (2, 3, 4):
+          for a in rng.choice(rank, size=2, replace=False).tolist():
+            add(qk, po2, hist_shape(rng, rank, {}), int(a) - rank, zero="channel" if rng.random() < 0.2 else None)
+          for how in ("end", "mixed"):
+            k = int(rng.integers(1, rank + 1)) if how == "end" else int(rng.integers(2, rank + 1))
+            axes = sorted(rng.choice(rank, size=k, replace=False).tolist())
+            add(qk, po2, hist_shape(rng, rank, {}), spell(rng, axes, rank, how))
+        # rank 1: quantized_linear resolves the axis at every rank, quantized_bits does not look at it
+        add(qk, po2, [int(rng.choice([2, 4, 8]))], -1)
+    # elements_per_scale (quantized_bits, auto_po2): `_get_scale_mean` normalises before it unrolls
+    for rank, how in ((2, "end"), (3, "mixed"), (4, "end"), (3, "int")):
+      sh = hist_shape(rng, rank, {})
+      if how == "int":
+        a = int(rng.integers(0, rank))
+        add("qbits", True, sh, a - rank, eps=int(rng.choice([d for d in (1, 2, 4) if sh[a] % d == 0])))
+      else:
+        axes = sorted(rng.choice(rank, size=2, replace=False).tolist())
+        facs = [int(rng.choice([d for d in (1, 2, 4) if sh[a] % d == 0])) for a in axes]
+        add("qbits", True, sh, spell(rng, axes, rank, how), eps=facs if rng.random() < 0.6 else int(min(facs)))
+  return pairs
+
+
+def gen_axis_histories(rng, tier):
+  """ONE object whose scale_axis is negative, used on tensors of DIFFERENT rank (the axis it names moves), re-spelled
+  between calls (k - rank, [k - rank], k), with elements_per_scale; same record format as `gen_history`"""
+  reps = 2 if tier == "quick" else 8
+  hs = []
+
+  def new(qk, pat, po2, sa, eps=None):
+    cfg = dict(bits=int(rng.integers(2, 9)), integer=int(rng.integers(0, 3)), kn=bool(rng.random() < 0.85), po2=po2,
+               sa=sa, eps=eps, mn=None, mx=None)
+    if qk == "qlinear":
+      cfg["sym"] = bool(rng.random() < 0.7)
+    return dict(q=qk, pattern=pat, cfg0=dict(cfg), pts=None, pre=None, steps=[],
+                build_ch_last=bool(rng.random() < 0.5)), cfg
+
+  def step(h, cfg, shape, x=None, set_=None, ch_last=True, twin_of=None, twin_k=None, same_as=None, g=None):
+    if set_:
+      cfg.update(set_)
+    h["steps"].append(dict(cfg=dict(cfg), set=dict(set_) if set_ else None, ch_last=ch_last, shape=list(shape),
+                           x=varied_tensor(rng, shape, g=g) if x is None else x, twin_of=twin_of, twin_k=twin_k,
+                           same_as=same_as, as_numpy=bool(rng.random() < 0.4)))
+
+  for rep in range(reps):
+    for qk in ("qbits", "qlinear"):
+      for po2 in (False, True):
+        # --- the rank changes under a negative axis: -1 is axis 1, then 3, then 2, ...
+        sa = [-1, -2, [-1], [0, -1], [-2, -1]][int(rng.integers(0, 5))] if rep else (-1 if qk == "qbits" else -2)
+        h, cfg = new(qk, "axis-end-ranks", po2, sa)
+        fmt = bool(rng.random() < 0.7)
+        ranks = [2, 4, 3, 2] if rep == 0 else [int(r) for r in rng.permutation([2, 3, 4])] + [int(rng.integers(2, 5))]
+        if sa in (-1, [-1]) and rep:
+          ranks.insert(2, 1)
+        for r in ranks:
+          step(h, cfg, hist_shape(rng, r, {}), ch_last=fmt)
+        hs.append(h)
+        # --- the same axis re-spelled on one object
+        rank = int(rng.integers(2, 5))
+        k = int(rng.integers(0, rank))
+        s0 = hist_shape(rng, rank, {})
+        x0 = varied_tensor(rng, s0)
+        kk = int(rng.choice([-3, -1, 2, 5]))
+        h, cfg = new(qk, "axis-respell", po2, k - rank)
+        step(h, cfg, s0, x=x0)
+        step(h, cfg, s0, x=(x0.astype(np.float64) * 2.0 ** kk).astype(np.float32), twin_of=0, twin_k=kk)
+        if qk == "qbits":
+          step(h, cfg, s0, x=x0.copy(), set_=dict(sa=[k - rank]))
+          step(h, cfg, s0, x=x0.copy(), set_=dict(sa=k))
+          step(h, cfg, s0, x=x0.copy(), set_=dict(sa=k - rank), same_as=0)
+        else:
+          # quantized_linear.scale_axis is a read-only property: no re-assignment, other data and the tensor again
+          step(h, cfg, s0, g=int(rng.integers(5, 9)))
+          step(h, cfg, s0, x=x0.copy(), same_as=0)
+        hs.append(h)
+    # --- elements_per_scale with an axis from the end, over ranks (quantized_bits, auto_po2)
+    e = int(rng.choice([1, 2, 4]))
+    sa, eps = ((-1, e) if rep % 2 == 0 else ([0, -1], [1, e]))
+    h, cfg = new("qbits", "axis-end-eps", True, sa, eps=eps)
+    last = tuple(d for d in (2, 4, 8) if d % e == 0)
+    s0 = hist_shape(rng, 3, {2: last})
+    x0 = varied_tensor(rng, s0)
+    kk = int(rng.choice([-3, 2, 5]))
+    step(h, cfg, s0, x=x0)
+    step(h, cfg, s0, x=(x0.astype(np.float64) * 2.0 ** kk).astype(np.float32), twin_of=0, twin_k=kk)
+    step(h, cfg, hist_shape(rng, 2, {1: last}))
+    step(h, cfg, hist_shape(rng, 4, {3: last}))
+    step(h, cfg, s0, x=x0.copy(), same_as=0)
+    hs.append(h)
+  return hs
 
 
 # ------------------------------------------------------------------ argument forms
@@ -797,6 +965,11 @@ def run_argforms(run, Q, tf, forms):
                                                               scale_axis=np.int64(c["sa"]))), tf.constant(c["x"])))
       variants.append(("scale_axis as one-element list", (lambda: cls(c["bits"], c["integer"], alpha=alpha,
                                                                       scale_axis=[c["sa"]])), tf.constant(c["x"])))
+      neg = c["sa"] - len(c["shape"])                     # the same axis counted from the end
+      for n, v in (("python int", neg), ("np.int64", np.int64(neg)), ("np.int32", np.int32(neg)),
+                   ("one-element list", [neg])):
+        variants.append(("scale_axis counted from the end as " + n,
+                         (lambda v=v: cls(c["bits"], c["integer"], alpha=alpha, scale_axis=v)), tf.constant(c["x"])))
     for name, mk, xin in variants:
       run.case(key=("argform", name, len(run.nontrivial)), nontrivial=True)
       run.count("argform:" + name)
@@ -849,6 +1022,8 @@ def gen_consumers(rng, tier):
         kshape = [cin, cout] if lk != "conv2d" else [int(rng.choice([1, 2])), 2, cin, cout]
         if mode == "live" and rng.random() < 0.3:
           cfg["sa"] = int(rng.integers(0, len(kshape)))
+          if len(out) % 2 == 0:
+            cfg["sa"] -= len(kshape)                      # the same kernel axis counted from the end
         bias = None
         if lk != "dense-shared" and rng.random() < 0.45:
           # a second C05 quantizer on the bias (rank 1: one scale per element)
@@ -1352,6 +1527,11 @@ def run(run, tier):
   eps32 = F(float(np.float32(K.epsilon())))
   qb, twins = gen_qbits(rng, tier)
   cases = qb + gen_qlinear(rng, tier)
+  # scale_axis counted from the end: own random stream, so that the streams above keep their cases
+  rng_ax = np.random.default_rng([run.seed, 512])
+  ax_pairs = gen_axis_cases(rng_ax, tier)
+  for c, d in ax_pairs:
+    cases += [c, d]
   run.extra["rule"] = ("quantized_bits(bits 2-8, integer 0-3, keep_negative, alpha auto/auto_po2, scale_axis int/list, "
                        "elements_per_scale, exponent bounds, post_training_scale, both data formats) and "
                        "quantized_linear(bits 1-8, symmetric, keep_negative, auto/auto_po2, scale_axis) x rank 1-4 "
@@ -1368,7 +1548,12 @@ def run(run, tier):
                        "model_save_quantized_weights -> call -> second export -> other data -> first tensor again -> "
                        "get_weight_scale -> clone_model_and_freeze_auto_po2_scale, judged after every event (clause oracle "
                        "against the scale exposed NOW, frozen scale kept, attributes untouched, fresh twin, Lean event "
-                       "history). Every case has a "
+                       "history). SCALE_AXIS COUNTED FROM THE END: fresh objects with a negative int / all-negative list / "
+                       "mixed list axis (with elements_per_scale too) on rank 1-4 tensors, each paired with the same "
+                       "configuration spelled from the start (clause oracle on both, pair bit-identical); one object with a "
+                       "negative axis over tensors of changing rank, the axis re-spelled between calls, every step compared "
+                       "with a fresh twin spelled from the start; the negative axis as python int / np.int64 / np.int32 / list. "
+                       "Every case has a "
                        "data-dependent (or frozen) scale, so every case is non-trivial.")
   lines, impl = [], []
   for c in cases:
@@ -1394,7 +1579,7 @@ def run(run, tier):
       impl.append(None)
       continue
     impl.append((A.fr(c["x"]), A.fr(y), [F(float(v)) for v in sc], None if qs is None else [F(float(v)) for v in qs]))
-  hists = gen_histories(rng, tier)
+  hists = gen_histories(rng, tier) + gen_axis_histories(rng_ax, tier)
   forms = gen_argforms(rng, tier)
   hist_impl = [run_history(run, Q, K, tf, h) for h in hists]
   hist_lines = [hist_line(h, eps32) for h in hists]
@@ -1420,6 +1605,26 @@ def run(run, tier):
   run_argforms(run, Q, tf, forms)
   for c, r, (a, n, ow) in zip(cons, cons_res, cons_span):
     judge_consumer(run, c, r, cons_outs[a:a + n], ow)
+  # ---- an axis counted from the end IS the axis counted from the start: the pair must agree bit for bit
+  for c, d in ax_pairs:
+    if id(c) not in res or id(d) not in res:
+      continue
+    run.case(key=("axis-pair", len(run.nontrivial)), nontrivial=True)
+    run.compared += 1
+    run.count("axis-pair:" + ("list" if isinstance(c["sa"], list) else "int") + (":eps" if c.get("eps") is not None else ""))
+    (y0, s0, _, q0), (y1, s1, _, q1) = res[id(c)], res[id(d)]
+    if y0 != y1 or s0 != s1 or q0 != q1 or c.get("scale_shapes") != d.get("scale_shapes"):
+      j = next((i for i in range(len(y0)) if y0[i] != y1[i] or s0[i] != s1[i]), 0)
+      run.violate("function_of_data", dict(quantizer="quantized_bits" if c["q"] == "qbits" else "quantized_linear",
+                                           alpha="auto_po2" if c["po2"] else "auto",
+                                           form="scale_axis counted from the end"),
+                  {"case": label(c), "why": "scale_axis=%r on a tensor of rank %d names the axes %r; the same quantizer "
+                                            "configured with those axes gives another output / scale"
+                                            % (c["sa"], len(c["shape"]), d["sa"]),
+                   "i": j, "x": float(A.fr(c["x"])[j]), "y": float(y0[j]), "y_from_start": float(y1[j]),
+                   "scale": float(s0[j]), "scale_from_start": float(s1[j]),
+                   "scale_shapes": c.get("scale_shapes"), "scale_shapes_from_start": d.get("scale_shapes")},
+                  mirrored=False)
   # ---- scale equivariance on the twins (x -> 2^k x), away from the epsilon floor and the band
   for c, d in twins:
     if id(c) not in res or id(d) not in res:
